@@ -30,7 +30,7 @@ func init() {
 			"Oracle: field-wise diff of every pre-existing auth account (type, address, pubkey, account number, sequence, vesting fields); permitted: signer's sequence/pubkey, sender's own original_vesting after a successful split/move. " +
 			"Non-trivial: the target existed before and the message reached its handler (was not rejected by stateless validation or the ante handler). Distinct by (combination, seed).",
 		Assumptions:   []string{"exhaustive refers to the message x target-state x signer dimension; payload values are sampled"},
-		Cases:         func(t string) int { return c09Combos()*tierN(t, 2, 40) + tierN(t, 24, 1500) },
+		Cases:         func(t string) int { return c09Combos()*tierN(t, 2, 40) + tierN(t, 96, 1500) },
 		MinNontrivial: func(t string) int { return tierN(t, 60, 1000) },
 		Run:           runC09,
 	})
